@@ -54,6 +54,7 @@ func C16(r *core.Run) {
 	hollowWrappersNotConverted(r)
 	entityPartOwnAnnotation(r) // the client takes an entity's key schema from the object annotated as its keys part: there is one
 	entityRefAgreement(r)
+	topicMessageNamedAfterMethod(r)
 	// a method without a response block returns a raw body (google.api.HttpBody): its response schema is nil
 	rules.OptionalField(r, []string{"internal/j5client.Method", "gen/j5/client/v1/client_j5pb.Method"}, "ResponseBody", "a method declared without a response block returns a raw body and has no response schema", "panic_sites")
 }
